@@ -89,12 +89,17 @@ fn run(prop: &str, tier: Tier) -> i32 {
         run.extra.insert("zoo_executions".into(), serde_json::json!(zoo.evaluations));
         rule_suffix.push_str("; plus the 'zoo': entities over {12 lengths} x {13 entity tags incl. comma / semicolon / '*' / backslash / obs-text / empty / 300 bytes, strong and weak} x {8 modification times incl. the epoch, +0.5 s, +1 ns, 2100} x {8 entity header sets} (quick: a third of that product) against ~50 requests derived from each entity's own length and validators");
         pre.merge(zoo);
+        // bodies with hundreds of ready frames, drained inside a tokio task
+        let tk = s::run_in_tokio(prop);
+        run.extra.insert("bodies_drained_inside_a_tokio_task".into(), serde_json::json!(tk.evaluations));
+        rule_suffix.push_str("; plus 16 bodies whose entity delivers 100..1000 always-ready one-byte chunks (200, single 206, multipart), drained inside a tokio task (cooperative budget, runtime context)");
+        pre.merge(tk);
     }
     if engine == "stream_mc" {
         // every chunk size x coding x waker discipline x payload against a fixed set of history shapes
         let zoo = mc::stream_mc::stream_zoo(prop, tier);
         run.extra.insert("stream_zoo_histories".into(), serde_json::json!(zoo.evaluations));
-        rule_suffix.push_str("; plus the streaming 'zoo': 18 history shapes (every operation incl. abort and body drop; write sizes 1, c-1, c, c+1, 3c+1, 70001) x chunk size {1,2,3,7,8,19,255,256,512,1000,4096,16384,65536} x {identity, gzip level 0/1/6/9} x {same waker, fresh waker per poll} x {incompressible, 'a'-run}");
+        rule_suffix.push_str("; plus the streaming 'zoo': 20 history shapes (every operation incl. write_vectored, abort and body drop; write sizes 1, c-1, c, c+1, 3c+1, 70001) x chunk size {1,2,3,7,8,19,255,256,512,1000,4096,16384,65536} x {identity, gzip level 0/1/6/9} x {same waker, fresh waker per poll} x {incompressible, 'a'-run}");
         pre.merge(zoo);
     }
     let mut st = f(&mut run);
